@@ -6,9 +6,9 @@ Open Scope N_scope.
 (* For every run — any history of inserts, updates, removes, expirations, evictions, clears; any
    number of client threads; every interleaving of their segments with the processor's and the
    policy worker's; either flavour; every configuration — in which keys are told apart by their
-   index hash (every conflict hash is 0, as with TransparentKeyBuilder) and no remove reported an
-   error (a Delete lost to a full buffer): whenever the cache is quiescent, a key is resident
-   exactly when it is charged ... *)
+   index hash (every conflict hash is 0, as with TransparentKeyBuilder): whenever the cache is
+   quiescent, a key is resident exactly when it is charged ...  (No hypothesis about errors is left:
+   since fix 7541841 a remove() waits for room instead of losing its Delete to a full buffer.) *)
 Theorem C06_quiescent_agree :
   forall c mc t now st,
   reach_cf c (cinit c mc t now) st -> quiescent st ->
@@ -30,7 +30,7 @@ Print Assumptions C06_quiescent_len.
    way, or the policy is about to be cleared.  Preserved by every step of every actor. *)
 Theorem C06_invariant_is_inductive :
   forall c st l st' o,
-  Agree st -> ZeroConf st -> label_cf0 l -> no_lost_delete c st l ->
+  Agree st -> ZeroConf st -> label_cf0 l ->
   cstep c st l = StepOk st' o -> Agree st'.
 Proof. exact Agree_step. Qed.
 Print Assumptions C06_invariant_is_inductive.
